@@ -1,8 +1,9 @@
 """C42 Happens-before equals transitive dependency.
 
 Monitor: generated sequences of real checker-side transitions (built through Channel::reinject + deserialize_transition) are
-pushed into the real odpor::Execution - also through the backtracking paths the explorers use (remove_last_event, copies,
-Execution(PartialExecution), get_prefix_before) - and the harness prints, for every event, the row of dispatch_depends(),
+pushed into the real odpor::Execution - also through the paths the explorers and reductions use (remove_last_event when
+backtracking, copies, Execution(PartialExecution), get_prefix_before alone as SDPOR::races_computation does, and
+get_prefix_before followed by pushes as Execution::get_missing_source_set_actors_from does) - and the harness prints, for every event, the row of dispatch_depends(),
 the row of happens_before() and get_racing_events_of(). Python recomputes happens-before from the definition (chains of
 pairwise dependent events, using the checker's own dependency answers) and the racing events from theirs, and compares
 every ordered pair and every event. ClockVector / Clock are driven by operation scripts against a dict model.
@@ -10,7 +11,7 @@ every ordered pair and every event. ClockVector / Clock are driven by operation 
 import multiprocessing
 import os
 
-from verif import build, proc
+from verif import build, core, proc
 from verif.gen import mctrans as G
 
 META = {
@@ -19,21 +20,31 @@ META = {
     "level": "exploration",
     "technique": "definitional reference (chains of pairwise dispatch_depends-dependent events; maximal predecessors of other actors) "
                  "compared with Execution::happens_before on every ordered pair and get_racing_events_of on every event; dict model for ClockVector",
-    "level_text": "Every generated execution (2-40 real transitions of all observable kinds - mutex, semaphore, barrier, condvar, comm incl. "
-                  "TestAny/WaitAny, actor create/join/exit/sleep, random - over 2-6 actors and 1-3 objects per kind, both arbitrary sequences "
-                  "and interleavings of program-like per-actor scripts) is recorded by the real Execution, partly through push/"
-                  "remove_last_event detours, copies and rebuilds as the explorers do. The full n x n happens_before matrix and the racing "
-                  "events of every event are compared with a reference computed in Python from the definition, with the dependency "
-                  "relation read from the real dispatch_depends (whose symmetry is checked on every pair met).",
-    "level_note": "The dependency relation itself is trusted here (it is C39's subject): only its symmetry is checked. Sequences need not be "
-                  "feasible runs of a program: both sides are pure functions of the sequence. Runs on the plain and the ASan+UBSan flavour.",
-    "rule": "case = one dumped execution; non-trivial = distinct executions with >=1 happens-before pair of different actors that holds only "
-            "through a chain (no direct dependency) and >=1 racing event",
-    "assumptions": ["dispatch_depends() is the dependency relation (C39)", "actor ids <= 30 (static_config::max_threads)"],
-    "ready": False,
+    "level_text": "Every generated execution (2-40 real transitions of every kind the checker deserialises - mutex lock/wait/test/trylock/"
+                  "unlock, semaphore, barrier, condvar, comm send/recv/iprobe/test/wait, TestAny/WaitAny, actor create/join/exit/sleep, "
+                  "random - over 2-6 actors and 1-3 objects per kind, both arbitrary sequences and interleavings of program-like "
+                  "per-actor scripts) is recorded by the real Execution, partly through the paths the explorers use: push/"
+                  "remove_last_event detours (DFS backtracking), copies, rebuilds from a PartialExecution, get_prefix_before alone "
+                  "(SDPOR::races_computation) and get_prefix_before followed by pushes (get_missing_source_set_actors_from). The full "
+                  "n x n happens_before matrix and the racing events of every event are compared with a reference computed in Python "
+                  "from the definition, with the dependency relation read from the real dispatch_depends (whose symmetry is checked "
+                  "on every pair met). Ten directed executions (chain through a third actor, previous-event clause, actor-id bounds, "
+                  "backtracking, 40 events on one mutex, ...) run on every seed.",
+    "level_note": "The dependency relation itself is trusted here (it is C39's subject): only its symmetry is checked; the run fails as a "
+                  "harness failure if some transition kind never occurred. Sequences need not be feasible runs of a program: both "
+                  "sides are pure functions of the sequence. Runs on the plain and the ASan+UBSan flavour (UBSan's misaligned-load "
+                  "reports inside Channel::unpack are not this property's business and are ignored). Memory-access traces "
+                  "(smemory, clang-only build option) are empty: the data-race epochs of Event are not judged.",
+    "rule": "case = one script (1-4 dumped executions); non-trivial = distinct dumped executions with >=1 happens-before pair that holds "
+            "only through a chain (no direct dependency) and >=1 racing event",
+    "assumptions": ["dispatch_depends() is the dependency relation (C39)", "actor ids <= 30 (static_config::max_threads - 2)"],
+    "ready": True,
 }
 
 PREFIX_TAG = ":after-get_prefix_before"
+# exact key of the open finding (see known_findings.d/C42.json); everything else observed after get_prefix_before+push gets
+# an ordinary key with PREFIX_TAG appended, which is *not* a known finding
+PREFIX_KEY = "C42:get_prefix_before+push:pushed-events-ignore-prefix"
 
 # Channel::unpack<T>() reads `*(T*)got` at whatever offset the previous fields left (a bool followed by an aid_t is the rule in
 # the transition wire format): UBSan reports a misaligned load inside the checker's deserialiser for most transitions. That is
@@ -48,9 +59,67 @@ def relevant_reports(err):
 # generation
 
 
+def parse_tr(text):
+    """'1 0 ML 0 1' -> (1, 0, 'ML', 0, 1)"""
+    f = text.split()
+    return (int(f[0]), int(f[1]), f[2]) + tuple(int(x) for x in f[3:])
+
+
+def simulate(lines):
+    """What the script makes the Execution contain at every Q: list of (transitions, h).  h is None for an execution whose
+    bookkeeping was built by push_transition alone; h = the length of the prefix when events were pushed on top of the
+    result of get_prefix_before(h) (open finding: those events ignore the prefix)."""
+    cur, pending, h, qs = [], None, None, []
+    for l in lines:
+        c = l[0]
+        if c == "X":
+            cur, pending, h = [], None, None
+        elif c == "P":
+            cur.append(parse_tr(l[2:]))
+            if pending is not None:
+                h, pending = pending, None
+        elif c == "R":
+            # remove_last_event() below the length of a prefix is never generated (the explorers do not do it either)
+            assert cur and pending is None and (h is None or len(cur) > h), "script removes an event of a prefix"
+            cur.pop()
+        elif c == "W":                     # rebuilt from scratch: regular bookkeeping
+            pending, h = None, None
+        elif c == "F":
+            k = int(l.split()[1])
+            assert 0 <= k <= len(cur)
+            assert h is None or k <= h, "script takes a prefix that keeps events pushed on a prefix"   # never generated
+            cur, h, pending = cur[:k], None, k
+        elif c == "Q":
+            qs.append((list(cur), h))
+        elif c != "K":
+            raise ValueError(l)
+    return qs
+
+
+def mkcase(cid, mode, body):
+    lines = ["X %s" % cid] + body
+    return {"id": cid, "mode": mode, "lines": lines, "qs": simulate(lines)}
+
+
+def sdpor_tail(rng, seq):
+    """Script lines doing on the execution `seq` what SDPOR does with it: E' = get_prefix_before(e'+1), then (inside
+    get_missing_source_set_actors_from) E'' = E'.get_prefix_before(e) and some of the events e+1..e' pushed on E''
+    (always e' itself). Which events are kept is decided by the real code from happens_before; any subset is a legitimate
+    execution for this property."""
+    n = len(seq)
+    ep = rng.randrange(1, n)
+    e = rng.randrange(0, ep)
+    out = ["F %d" % (ep + 1)]
+    if rng.random() < 0.3:
+        out.append("Q")                    # the prefix SDPOR asks get_reversible_races_of() about
+    out.append("F %d" % e)
+    for k in range(e + 1, ep + 1):
+        if k == ep or rng.random() < 0.6:
+            out.append("P " + G.txt(seq[k]))
+    return out
+
+
 def gen_case(rng, cid):
-    """Returns (script lines, expected dumps).  expected = list of (list of transitions at the Q, tainted) in Q order;
-    tainted = a push happened after get_prefix_before replaced the execution (known finding F-prefix)."""
     n = rng.choice([2, 3, 5, 8, 12, 20, 30, 40, rng.randrange(2, 41)])
     nact = rng.randrange(2, 7)
     fams = rng.sample(G.FAMILIES, rng.randrange(1, len(G.FAMILIES) + 1)) if rng.random() < 0.7 else list(G.FAMILIES)
@@ -61,51 +130,61 @@ def gen_case(rng, cid):
         env, progs = G.program(rng, nact, max(1, (n + nact - 1) // nact + 1), fams)
         seq = G.interleave(rng, progs, n)
         mode = "program"
-    lines = ["X %s" % cid]
-    cur, qs = [], []
-    tainted = False
-    prefixed = False
+    body = []
     style = rng.random()
     junk_env = G.Env(rng, sorted({t[0] for t in seq}), fams)
     for i, t in enumerate(seq):
-        if style < 0.5 and rng.random() < 0.15 and len(cur) + 4 <= 40 and not prefixed:       # a backtracking detour
+        if style < 0.5 and rng.random() < 0.15 and i + 4 <= 40:       # a backtracking detour (DFS/BeFS explorers)
             k = rng.randrange(1, 4)
             for _ in range(k):
-                lines.append("P " + G.txt(G.rand_transition(junk_env, junk_env.actor())))
-            lines += ["R"] * k
-        lines.append("P " + G.txt(t))
-        cur.append(t)
-        if prefixed:
-            tainted = True
+                body.append("P " + G.txt(G.rand_transition(junk_env, junk_env.actor())))
+            body += ["R"] * k
+        body.append("P " + G.txt(t))
         if style < 0.5 and rng.random() < 0.05:
-            lines.append(rng.choice(["K", "W"]))
-            prefixed = False if lines[-1] == "W" else prefixed
-        if 0.5 <= style < 0.6 and rng.random() < 0.1 and len(cur) >= 2:
-            lines.append("Q")
-            qs.append((list(cur), tainted))
+            body.append(rng.choice(["K", "W"]))
+        if 0.5 <= style < 0.6 and rng.random() < 0.1 and i >= 1:
+            body.append("Q")
     x = rng.random()
-    if x < 0.12 and len(cur) >= 2:                       # the prefix alone: its recorded relation must be the restriction
-        h = rng.randrange(1, len(cur) + 1)
-        lines.append("F %d" % h)
-        cur = cur[:h]
-        if rng.random() < 0.25:                          # ... and, rarely, events pushed on top of a prefix
-            prefixed = True
-            for t in seq[h:h + rng.randrange(1, 6)]:
-                lines.append("P " + G.txt(t))
-                cur.append(t)
-                tainted = True
-    lines.append("Q")
-    qs.append((list(cur), tainted))
-    return {"id": cid, "mode": mode, "lines": lines, "qs": qs}
+    if x < 0.10 and len(seq) >= 2:                       # the prefix alone: its recorded relation must be the restriction
+        body.append("F %d" % rng.randrange(1, len(seq) + 1))
+    elif x < 0.15 and len(seq) >= 2:                     # prefix + pushes, the way get_missing_source_set_actors_from builds E'.v
+        body += sdpor_tail(rng, seq)
+        mode += "+prefix-push"
+    body.append("Q")
+    return mkcase(cid, mode, body)
+
+
+def _d(cid, *body):
+    return mkcase(cid, "directed", list(body))
 
 
 DIRECTED = [
-    # minimal witness of the open finding: events pushed on an Execution returned by get_prefix_before ignore the prefix
-    {"id": "d-prefix", "mode": "directed", "lines": ["X d-prefix", "P 1 0 ML 0 1", "P 2 0 ML 0 1", "F 1", "P 2 0 ML 0 1", "Q"],
-     "qs": [([(1, 0, "ML", 0, 1), (2, 0, "ML", 0, 1)], True)]},
+    # Minimal witness of the open finding, shaped as SDPOR builds it. E = <3:lock m0> <1:lock m1> <4:lock m0> <2:lock m1>;
+    # events 1 and 3 race; get_missing_source_set_actors_from(1) builds pre(1,E).<4:lock m0>.<2:lock m1>: there
+    # <3:lock m0> must happen before <4:lock m0> and be its racing event.
+    _d("d-prefix-push", "P 3 0 ML 0 3", "P 1 0 ML 1 1", "P 4 0 ML 0 3", "P 2 0 ML 1 1", "Q",
+       "F 4", "Q", "F 1", "P 4 0 ML 0 3", "P 2 0 ML 1 1", "Q", "W", "Q"),
     # three actors, a chain through a third actor and two races (ODPOR paper style)
-    {"id": "d-chain", "mode": "directed", "lines": ["X d-chain", "P 1 0 ML 0 1", "P 2 0 ML 0 2", "P 2 0 SU 0 0 1", "P 3 0 SW 0 1 0", "P 1 0 MW 0 1", "Q"],
-     "qs": [([(1, 0, "ML", 0, 1), (2, 0, "ML", 0, 2), (2, 0, "SU", 0, 0, 1), (3, 0, "SW", 0, 1, 0), (1, 0, "MW", 0, 1)], False)]},
+    _d("d-chain", "P 1 0 ML 0 1", "P 2 0 ML 0 2", "P 2 0 SU 0 0 1", "P 3 0 SW 0 1 0", "P 1 0 MW 0 1", "Q"),
+    # the "not already ordered with the previous event of its actor" clause: <1:lock m0> is dependent with both events of
+    # actor 2 but races only with the first one
+    _d("d-prev-clause", "P 1 0 ML 0 1", "P 2 0 ML 0 1", "Q", "P 2 0 MT 0 -1", "Q", "P 3 0 MT 0 -1", "Q"),
+    # one actor only: total order, no race; pairwise independent actors: empty relation
+    _d("d-one-actor", "P 5 0 ML 0 5", "P 5 0 MW 0 5", "P 5 0 SD 1 0 0", "P 5 0 WT 0 1 5 5 0", "P 5 0 MU 0 5", "P 5 0 AE", "Q"),
+    _d("d-independent", "P 1 0 ML 0 1", "P 2 0 ML 1 2", "P 3 0 SL 0 1 1", "P 4 0 BL 0", "P 5 1 RN 0 2", "P 6 0 AS", "Q"),
+    # the smallest and largest actor ids the clock vectors can hold
+    _d("d-aid-bounds", "P 0 0 ML 0 0", "P 30 0 ML 0 0", "P 29 0 MT 0 -1", "P 0 0 MU 0 0", "P 30 0 MW 0 30", "Q"),
+    # backtracking: what was removed must leave no trace in the clocks of what is pushed afterwards
+    _d("d-backtrack", "P 1 0 ML 0 1", "P 2 0 ML 0 1", "P 3 0 ML 0 1", "R", "R", "P 3 0 ML 1 3", "Q", "P 2 0 ML 1 3", "Q",
+       "R", "R", "R", "P 2 0 SL 0 1 1", "Q"),
+    # actor creation, join and exit around a communication (send/recv/wait/test on one mailbox)
+    _d("d-actor-comm", "P 1 0 AC 2", "P 1 0 AC 3", "P 2 0 SD 1 0 0", "P 3 0 RV 2 0 0", "P 2 0 WT 0 1 2 3 0", "P 3 0 TS 2 2 3 0",
+       "P 3 0 AE", "P 1 0 AJ 3 0", "P 2 0 AE", "P 1 0 AJ 2 0", "Q"),
+    # condition variable with its mutex, semaphore and barrier in one execution
+    _d("d-sync-mix", "P 1 0 ML 0 1", "P 1 0 MW 0 1", "P 1 0 CL 0 0", "P 2 0 ML 0 1", "P 2 0 CS 0", "P 1 0 CW 0 0 1 0", "P 1 0 MU 0 1",
+       "P 2 0 MW 0 2", "P 3 0 SL 0 1 0", "P 2 0 SU 0 0 1", "P 3 0 SW 0 1 0", "P 3 0 BL 0", "P 2 0 BL 0", "P 3 0 BW 0", "P 2 0 BW 0", "Q"),
+    # 40 events of six actors on one mutex: the densest relation
+    _d("d-dense-40", *(["P %d 0 %s 0 %d" % (1 + i % 6, ("ML", "MT", "MU", "MW", "Mt")[i % 5], 1 + i % 6) for i in range(40)] + ["Q"])),
 ]
 
 
@@ -195,19 +274,58 @@ def reference(aids, dep):
     return pred, succ, races
 
 
-def judge_dump(trs, tainted, events, corrupt=None):
-    """events = list of (idx, aid, dep, hb, races). Returns (findings, stats). findings = list of (key, what)."""
+def compare(trs, aids, events, hb, exp_succ, exp_pred, exp_races, tag, tol_succ=None, tol_races=None):
+    """Differences (the first one of each event) between what the Execution answered and the expected relation / racing
+    events -> [(key, what)]. tol_succ[i] / tol_races[e]: expected pairs / racing events that may be absent."""
+    out = []
+    n = len(aids)
+    for i in range(n):
+        row = hb[i]
+        if tol_succ:
+            row |= exp_succ[i] & tol_succ[i]
+        if row != exp_succ[i]:
+            diff = row ^ exp_succ[i]
+            j = (diff & -diff).bit_length() - 1
+            if j <= i:
+                out.append(("C42:hb:not-before" + tag, "happens_before(%d,%d) is true although event %d does not occur before event %d" % (i, j, i, j)))
+            elif row >> j & 1:
+                out.append(("C42:hb:spurious" + tag, "happens_before(%d,%d) is true but no chain of pairwise dependent events leads from %d (%s) to %d (%s)"
+                            % (i, j, i, G.txt(trs[i]), j, G.txt(trs[j]))))
+            else:
+                out.append(("C42:hb:missing" + tag, "happens_before(%d,%d) is false but a chain of pairwise dependent events leads from %d (%s) to %d (%s)"
+                            % (i, j, i, G.txt(trs[i]), j, G.txt(trs[j]))))
+    for e in range(n):
+        got = events[e][4]
+        if len(set(got)) != len(got):
+            out.append(("C42:race:duplicate" + tag, "get_racing_events_of(%d) lists an event twice: %r" % (e, got)))
+        got = set(got)
+        if tol_races:
+            got |= exp_races[e] & tol_races[e]
+        if got != exp_races[e]:
+            extra, miss = sorted(got - exp_races[e]), sorted(exp_races[e] - got)
+            if extra:
+                x = extra[0]
+                why = "not before it" if x >= e else "of the same actor" if aids[x] == aids[e] else \
+                    "not happening before it" if not exp_pred[e] >> x & 1 else "not maximal (event %d lies in between)" % ((exp_succ[x] & exp_pred[e]).bit_length() - 1)
+                out.append(("C42:race:spurious" + tag, "get_racing_events_of(%d) contains %d which is %s; definition gives %r, got %r" % (e, x, why, sorted(exp_races[e]), sorted(got))))
+            else:
+                out.append(("C42:race:missing" + tag, "get_racing_events_of(%d) misses %d, a maximal predecessor of another actor; definition gives %r, got %r"
+                            % (e, miss[0], sorted(exp_races[e]), sorted(got))))
+    return out
+
+
+def judge_dump(trs, h, events):
+    """events = list of (idx, aid, dep, hb, races); h = None, or the length of the get_prefix_before() result the later
+    events were pushed on. Returns (findings, stats). findings = list of (key, what)."""
     out = []
     n = len(events)
     st = {"events": n, "pairs": n * n}
-    tag = PREFIX_TAG if tainted else ""
+    tag = PREFIX_TAG if h is not None else ""
     if n != len(trs):
         return [("C42:size" + tag, "the execution holds %d events, %d were pushed" % (n, len(trs)))], st
     aids = [e[1] for e in events]
     dep = [e[2] for e in events]
     hb = [e[3] for e in events]
-    if corrupt:
-        corrupt(aids, dep, hb, events)
     for i in range(n):
         if aids[i] != trs[i][0]:
             out.append(("C42:actor" + tag, "event %d is recorded for actor %d, pushed for actor %d" % (i, aids[i], trs[i][0])))
@@ -218,43 +336,54 @@ def judge_dump(trs, tainted, events, corrupt=None):
     if out:
         return out, st
     pred, succ, races = reference(aids, dep)
-    nhb = ntrans = 0
+    out = compare(trs, aids, events, hb, succ, pred, races, tag)
+    if out and h is not None:
+        # Open finding: get_prefix_before() returns an Execution without its per-actor index, so an event pushed afterwards
+        # gets a clock vector built from the events pushed after the prefix only. Exact footprint: a pair (prefix event i,
+        # pushed event j) is ordered only when a pushed event of i's actor is j or precedes j (the clock entry of that actor
+        # is then a handle beyond the prefix and happens_before only compares handles); the pushed events have no racing
+        # event inside the prefix; everything else is as the definition says. Only exactly that footprint is the known
+        # finding, any other difference is reported under an ordinary key.
+        lo = (1 << h) - 1
+        d_succ = []
+        for i in range(n):
+            m = succ[i]
+            if i < h:
+                keep = 0
+                for k in range(h, n):
+                    if aids[k] == aids[i]:
+                        keep |= succ[k] | 1 << k
+                m = m & lo | m & keep
+            d_succ.append(m)
+        d_pred = [sum(1 << i for i in range(j) if d_succ[i] >> j & 1) for j in range(n)]
+        d_races = [races[e] if e < h else {i for i in races[e] if i >= h} for e in range(n)]
+        other = compare(trs, aids, events, hb, d_succ, d_pred, d_races, tag)
+        if other:
+            # not (only) the known footprint: report what the footprint does not explain
+            out = compare(trs, aids, events, hb, succ, pred, races, tag, [succ[i] & ~d_succ[i] for i in range(n)],
+                          [races[e] - d_races[e] for e in range(n)]) or other
+        else:
+            st["prefix_push_defect_dumps"] = 1
+            out = [(PREFIX_KEY, "after E' = get_prefix_before(%d) and %d push_transition() on E': %s (the clock vectors of the events pushed on E' ignore E'; "
+                    "the rest of the relation is as defined)" % (h, n - h, out[0][1]))]
+    nhb = ntrans = nrace = 0
     for i in range(n):
-        row = hb[i]
-        if row != succ[i]:
-            diff = row ^ succ[i]
-            j = (diff & -diff).bit_length() - 1
-            if j <= i:
-                out.append(("C42:hb:not-before" + tag, "happens_before(%d,%d) is true although event %d does not occur before event %d" % (i, j, i, j)))
-            elif row >> j & 1:
-                out.append(("C42:hb:spurious" + tag, "happens_before(%d,%d) is true but no chain of pairwise dependent events leads from %d (%s) to %d (%s)"
-                            % (i, j, i, G.txt(trs[i]), j, G.txt(trs[j]))))
-            else:
-                out.append(("C42:hb:missing" + tag, "happens_before(%d,%d) is false but a chain of pairwise dependent events leads from %d (%s) to %d (%s)"
-                            % (i, j, i, G.txt(trs[i]), j, G.txt(trs[j]))))
-        m = succ[i]
-        nhb += bin(m).count("1")
-        # pairs of different actors ordered only transitively
-        t = m & ~dep[i]
-        ntrans += bin(t).count("1")
-    nrace = 0
-    for e in range(n):
-        got = events[e][4]
-        if len(set(got)) != len(got):
-            out.append(("C42:race:duplicate" + tag, "get_racing_events_of(%d) lists an event twice: %r" % (e, got)))
-        got = set(got)
-        if got != races[e]:
-            extra, miss = sorted(got - races[e]), sorted(races[e] - got)
-            if extra:
-                x = extra[0]
-                why = "the same actor" if x < n and aids[x] == aids[e] else "not before it" if x >= e else \
-                    "not happening before it" if not pred[e] >> x & 1 else "not maximal (event %d lies in between)" % ((succ[x] & pred[e]).bit_length() - 1)
-                out.append(("C42:race:spurious" + tag, "get_racing_events_of(%d) contains %d which is %s; definition gives %r, got %r" % (e, x, why, sorted(races[e]), sorted(got))))
-            else:
-                out.append(("C42:race:missing" + tag, "get_racing_events_of(%d) misses %d, a maximal predecessor of another actor; definition gives %r, got %r"
-                            % (e, miss[0], sorted(races[e]), sorted(got))))
-        nrace += len(races[e])
+        nhb += bin(succ[i]).count("1")
+        ntrans += bin(succ[i] & ~dep[i]).count("1")          # ordered only through a chain
+        nrace += len(races[i])
     st.update(hb_pairs=nhb, transitive_only_pairs=ntrans, racing_events=nrace)
+    kinds = {}
+    for t in trs:
+        kinds[t[2]] = kinds.get(t[2], 0) + 1
+    st["kinds"] = kinds
+    outcomes = {}
+    for i in range(n):
+        for j in range(i + 1, n):
+            if aids[i] != aids[j]:
+                a, b = trs[i][2], trs[j][2]
+                k = a + "/" + b if a <= b else b + "/" + a
+                outcomes[k] = outcomes.get(k, 0) | (2 if dep[i] >> j & 1 else 1)
+    st["outcomes"] = outcomes
     return out, st
 
 
@@ -276,6 +405,40 @@ def parse_output(text):
     return dumps, other, done
 
 
+def corrupt_output(text, how):
+    """Oracle self-test only (VERIF_C42_CORRUPT=hb-drop|hb-add|race-drop|race-add|actor): falsifies what the harness reported
+    for the first suitable event of every dump, as a defect of the Execution would."""
+    out, armed = [], False
+    for line in text.splitlines():
+        if line.startswith("Q "):
+            armed = True
+        elif line.startswith("E ") and armed:
+            f = line.split()
+            idx, hbrow, races = int(f[1]), int(f[4], 16), f[5]
+            later = ~((1 << (idx + 1)) - 1)
+            if how == "hb-drop" and hbrow:
+                f[4] = "%x" % (hbrow & (hbrow - 1))
+                armed = False
+            elif how == "hb-add":
+                n = int(out[[k for k, l in enumerate(out) if l.startswith("Q ")][-1]].split()[2])
+                free = ~hbrow & later & ((1 << n) - 1)
+                if free:
+                    f[4] = "%x" % (hbrow | (free & -free))
+                    armed = False
+            elif how == "race-drop" and races != "-":
+                f[5] = ",".join(races.split(",")[1:]) or "-"
+                armed = False
+            elif how == "race-add" and idx >= 2 and races == "-":
+                f[5] = "0"
+                armed = False
+            elif how == "actor" and idx >= 1:
+                f[2] = str((int(f[2]) + 1) % 31)
+                armed = False
+            line = " ".join(f)
+        out.append(line)
+    return "\n".join(out) + "\n"
+
+
 def run_chunk(args):
     """Worker (separate process): runs one batch of cases in one harness process and judges it."""
     exe, fl, cases, timeout = args
@@ -283,25 +446,32 @@ def run_chunk(args):
     res = proc.run([exe], stdin=inp, timeout=timeout, env=SAN_ENV)
     if res.timed_out:
         return {"inconclusive": "hb harness watchdog", "n": len(cases)}
-    dumps, other, done = parse_output(res.out)
+    text = res.out
+    if os.environ.get("VERIF_C42_CORRUPT"):
+        text = corrupt_output(text, os.environ["VERIF_C42_CORRUPT"])
+    dumps, other, done = parse_output(text)
     nq = sum(len(c["qs"]) for c in cases)
     reports = relevant_reports(res.err)
     if res.rc != 0 or not done or len(dumps) != nq or reports:
         return {"died": True, "rc": res.rc, "err": res.err[-1500:], "reports": reports, "n": len(cases),
                 "answered": len(dumps), "expected": nq}
-    out = {"findings": [], "stats": {}, "nontrivial": [], "n": len(cases), "modes": {}}
+    out = {"findings": [], "stats": {}, "nontrivial": [], "n": len(cases), "modes": {}, "kinds": {}, "outcomes": {}}
     k = 0
     for c in cases:
         out["modes"][c["mode"]] = out["modes"].get(c["mode"], 0) + 1
-        for trs, tainted in c["qs"]:
-            f, st = judge_dump(trs, tainted, dumps[k])
+        for trs, h in c["qs"]:
+            f, st = judge_dump(trs, h, dumps[k])
             k += 1
             for key, what in f:
-                out["findings"].append((key, what, {"flavour": fl, "lines": c["lines"], "qs": c["qs"]}))
+                out["findings"].append((key, what, {"flavour": fl, "lines": c["lines"]}))
+            for name, v in st.pop("kinds", {}).items():
+                out["kinds"][name] = out["kinds"].get(name, 0) + v
+            for name, v in st.pop("outcomes", {}).items():
+                out["outcomes"][name] = out["outcomes"].get(name, 0) | v
             for name, v in st.items():
                 out["stats"][name] = out["stats"].get(name, 0) + v
             out["stats"]["dumps"] = out["stats"].get("dumps", 0) + 1
-            if tainted:
+            if h is not None:
                 out["stats"]["dumps_after_prefix_push"] = out["stats"].get("dumps_after_prefix_push", 0) + 1
             if not f and st.get("transitive_only_pairs", 0) >= 1 and st.get("racing_events", 0) >= 1:
                 out["nontrivial"].append(" ".join(G.txt(t) for t in trs))
@@ -315,6 +485,9 @@ def run_single(ctx, fl, case):
     absorb(ctx, fl, r, [case], single=True)
 
 
+OUTCOMES = {}      # kind pair of different actors -> 1 (seen independent) | 2 (seen dependent)
+
+
 def absorb(ctx, fl, r, cases, single=False):
     if "inconclusive" in r:
         ctx.inconclusive(r["inconclusive"])
@@ -326,10 +499,10 @@ def absorb(ctx, fl, r, cases, single=False):
                 run_single(ctx, fl, c)
             return
         c = cases[0]
-        tainted = any(t for _, t in c["qs"]) or any(l.startswith("F") for l in c["lines"])
+        tainted = any(h is not None for _, h in c["qs"])
         kind = "asan" if any(k == "asan" for k, _ in r["reports"]) else "ubsan" if r["reports"] else "crash"
         ctx.violation("C42:%s%s" % (kind, PREFIX_TAG if tainted else ""), "the hb harness died (rc=%s) on this script after answering %d of %d dumps: %s"
-                      % (r["rc"], r["answered"], r["expected"], (r["reports"][:1] or [r["err"][-400:]])[0]), {"flavour": fl, "lines": c["lines"], "qs": c["qs"]})
+                      % (r["rc"], r["answered"], r["expected"], (r["reports"][:1] or [r["err"][-400:]])[0]), {"flavour": fl, "lines": c["lines"]})
         return
     ctx.evaluation(r["n"])
     for key, what, w in r["findings"]:
@@ -338,6 +511,10 @@ def absorb(ctx, fl, r, cases, single=False):
         ctx.count(name, v)
     for m, v in r["modes"].items():
         ctx.count("cases.%s.%s" % (fl, m), v)
+    for name, v in r["kinds"].items():
+        ctx.count("kind." + name, v)
+    for name, v in r["outcomes"].items():
+        OUTCOMES[name] = OUTCOMES.get(name, 0) | v
     for s in r["nontrivial"]:
         ctx.nontrivial(s)
 
@@ -354,6 +531,10 @@ def check_cv(ctx, fl, exe, nscripts):
             ctx.inconclusive("hb harness watchdog (clock vectors)")
             continue
         got = [l for l in res.out.splitlines() if not l.startswith("DONE")]
+        if os.environ.get("VERIF_C42_CORRUPT") == "cv" and got:              # oracle self-test only
+            f = got[len(got) // 2].split()
+            f[1] = str(int(f[1]) + 1)
+            got[len(got) // 2] = " ".join(f)
         if res.rc != 0 or len(got) != len(exp):
             ctx.violation("C42:clockvector:crash", "clock-vector script died rc=%s after %d of %d answers: %s" % (res.rc, len(got), len(exp), res.err[-300:]), w)
             continue
@@ -368,6 +549,7 @@ def check_cv(ctx, fl, exe, nscripts):
 
 
 def run(ctx):
+    OUTCOMES.clear()
     n = ctx.size(2000, 100000)
     cases = DIRECTED + [gen_case(ctx.sub_rng(i), "c%d" % i) for i in range(n)]
     ctx.sample({"script": cases[1]["lines"]})
@@ -385,6 +567,14 @@ def run(ctx):
             absorb(ctx, job[1], r, job[2])
     for fl in ("hooks", "asan"):
         check_cv(ctx, fl, exes[fl], ctx.size(8, 60) if fl == "hooks" else ctx.size(3, 10))
+    # which dependency outcomes the real dispatch_depends gave, per pair of kinds, between events of different actors
+    ctx.count("kind_pairs.seen", len(OUTCOMES))
+    ctx.count("kind_pairs.seen_dependent", sum(1 for v in OUTCOMES.values() if v & 2))
+    ctx.count("kind_pairs.seen_independent", sum(1 for v in OUTCOMES.values() if v & 1))
+    ctx.count("kind_pairs.seen_both_outcomes", sum(1 for v in OUTCOMES.values() if v == 3))
+    missing = sorted(set(G._FAMILY) - {k for p in OUTCOMES for k in p.split("/")})
+    if missing and ctx.tier == "quick" and n >= 2000:
+        raise core.HarnessFailure("transition kinds never met in a dumped execution: %s" % missing)
 
 
 def replay(ctx, w):
@@ -401,6 +591,6 @@ def replay(ctx, w):
         if res.rc != 0 or len(got) != len(w["expected"]):
             ctx.violation("C42:clockvector:crash", "script died rc=%s" % res.rc, w)
         return
-    case = {"id": "replay", "mode": "replay", "lines": w["lines"], "qs": [([tuple(t) for t in trs], tainted) for trs, tainted in w["qs"]]}
+    case = {"id": "replay", "mode": "replay", "lines": w["lines"], "qs": simulate(w["lines"])}
     r = run_chunk((exe, fl, [case], 120))
     absorb(ctx, fl, r, [case], single=True)
